@@ -153,6 +153,12 @@ def run_one(ctx, case, judge, ref_kw=None, exclude=None, nontrivial=None):
 
 def replay_case(ctx, case, judge, ref_kw=None):
     program = case["program"]
+    why = None if case.get("directed_known") else known_shape(program)
+    if why and getattr(ctx, "divert_known_shapes_on_replay", True):
+        print("NOTE: the replayed program has the shape of the open finding %s (see known_findings.json); the generators "
+              "divert this shape, so it is not judged here" % why)
+        ctx.excluded_by_known += 1
+        return None
     model = REF.Model(program, **{k: v for k, v in (ref_kw or {}).items() if k == "liskov_unconstrained_base"})
     truth = {int(k): v for k, v in case["truth"].items()}
     res = H.run_case(program, case["ops"], truth, model=model, ref_kw=ref_kw)
@@ -192,7 +198,7 @@ def d23_shape(program):
 
 
 def d24_shape(program):
-    """Finding D24: a class that INTRODUCES invariants below invariant-free ancestors has to wrap the members it
+    """Finding D24: a class that INTRODUCES call-time invariants (no ancestor has any) has to wrap the members it
     inherits and thereby re-defines them on itself; in a multiple-inheritance class `D(B, C)` this copy shadows C's
     override of the same member (or C's __init__ reached through super())."""
     cl = program.get("classes", [])
@@ -208,11 +214,16 @@ def d24_shape(program):
                 stack += cl[k].get("bases", [])
         return out
 
+    def on_call(k):
+        return any(i.get("on", "CALL") in ("CALL", "ALL") for i in cl[k].get("invs", []))
+
     for ci, c in enumerate(cl):
-        if not c.get("invs") or not c.get("bases"):
+        # "introduces": the first class on its path with an invariant that is checked around calls (an ancestor with
+        # attribute-set invariants only has not wrapped its methods)
+        if not on_call(ci) or not c.get("bases"):
             continue
         a = anc(ci)
-        if any(cl[k].get("invs") for k in a):
+        if any(on_call(k) for k in a):
             continue
         own = {(m["name"], m["kind"]) for m in c.get("members", [])}
         inherited = {(m["name"], m["kind"]) for k in a for m in cl[k].get("members", [])
